@@ -27,8 +27,7 @@ def permanent_files_ok(root, alg, supplied_docs):
             probs.append("metadata document %s/%s is not a complete supplied version (%d bytes)" % (d[:8], n[:8], len(data)))
     for k, text in tree["pidrefs"].items():
         if len(text) != dlen or any(c not in "0123456789abcdef" for c in text):
-            if not text == "a" * 0 and len(text) != dlen:
-                probs.append("pid reference %s holds %r, not one complete cid" % (k[:8], text[:80]))
+            probs.append("pid reference %s holds %r, not one complete cid" % (k[:8], text[:80]))
     return probs
 
 
